@@ -2,6 +2,13 @@ import Abyss.Props.C03
 import Abyss.Props.C02
 import Abyss.Props.C03Snapshot
 import Abyss.Props.C03Db
+import Abyss.Props.RaBufP
+import Abyss.Props.RaBufMap
+import Abyss.Props.C03Rb
+#print axioms Abyss.C03_snapshot_opens_rb
+#print axioms Abyss.RaBuf.C03_map_durable
+#print axioms Abyss.RaBuf.C03_chunk_durable
+#print axioms Abyss.RaBuf.flush_spec
 #print axioms Abyss.Buf.C03_db_level
 #print axioms Abyss.Buf.C03_db_memory
 #print axioms Abyss.C03_snapshot_opens
